@@ -130,8 +130,12 @@ def check(an: Analysis) -> None:
                 n
                 for n in g.nodes
                 if n.kind == "stmt"
-                and isinstance(n.ast, (ast.Assign, ast.AnnAssign))
-                and any(dotted(t) == "self._token" for t in (n.ast.targets if isinstance(n.ast, ast.Assign) else [n.ast.target]))
+                and isinstance(n.ast, (ast.Assign, ast.AnnAssign, ast.AugAssign, ast.Delete))
+                and any(
+                    isinstance(x, ast.Attribute) and dotted(x) == "self._token" and isinstance(x.ctx, (ast.Store, ast.Del))
+                    for t in (n.ast.targets if isinstance(n.ast, (ast.Assign, ast.Delete)) else [n.ast.target])
+                    for x in ast.walk(t)
+                )
             ]
             if stores:
                 w = g.ordered(lambda n: n in own, lambda n: n in stores)
